@@ -211,6 +211,7 @@ const T = {
   dcWrappedOpts: (i) => `const DW2${i} = defineComponent((props: { a: string }) => () => null, { inheritAttrs: false } as any);\nconst DW3${i} = defineComponent((props: { b: number }) => () => null, ({ inheritAttrs: false }) satisfies object);\n__out.k${i} = () => 1;`,
   dcNoArgs:  (i) => `const DN${i} = (defineComponent as any)();\nlet dn${i};\ndn${i} = defineComponent();\n__out.k${i} = () => 1;`.replace('(defineComponent as any)()', 'defineComponent()'),
   dcOddArgs: (i) => `const DO2${i} = defineComponent(null, undefined);\nconst DO3${i} = defineComponent(...[]);\nconst DO4${i} = defineComponent(uo);\n__out.k${i} = () => 1;`,
+  dcTplKeyProps: (i) => `const DL${i} = defineComponent((props: { [\`foo-bar\`]: string; [\`baz\`]?: number; ['q r']: boolean }) => () => null);\n__out.k${i} = () => 1;`,
   exportDc:  (i) => `export const ED${i} = defineComponent((props: { a: string }) => null, { name: 'Own' });\n__out.k${i} = () => 1;`,
 };
 const TS_PRELUDE = "import { defineComponent, SetupContext } from 'vue';\nconst uo = __env.bound;\n";
@@ -224,7 +225,7 @@ function itemSrc(item, i) {
 }
 function itemKey(item) { return item.t ? 'T:' + item.t : item.d ? 'D:' + item.d : `${item.k}∘${item.l}`; }
 const T_JSX = new Set(['dcJsxDefault', 'dcJsxDynDefault', 'dcProps', 'dcEmits', 'typedArrow', 'genericArrow', 'asyncTyped']);
-const T_DC = new Set(['dcWrappedOpts', 'dcNoArgs', 'dcOddArgs', 'dcDupAny', 'dcInterUnknown', 'dcThreeArgs', 'dcThreeArgsTyped', 'dcProps', 'dcIface', 'dcIdentOpts', 'dcEmits', 'dcDefault', 'dcDynDefault', 'dcSpreadDefault', 'dcOwnPropsDynDefault', 'dcJsxDefault', 'dcJsxDynDefault', 'callDc', 'exportDc']);
+const T_DC = new Set(['dcWrappedOpts', 'dcNoArgs', 'dcOddArgs', 'dcDupAny', 'dcInterUnknown', 'dcThreeArgs', 'dcThreeArgsTyped', 'dcProps', 'dcIface', 'dcIdentOpts', 'dcEmits', 'dcDefault', 'dcDynDefault', 'dcSpreadDefault', 'dcOwnPropsDynDefault', 'dcJsxDefault', 'dcJsxDynDefault', 'callDc', 'exportDc', 'dcTplKeyProps']);
 function itemHasJsx(item) { return item.t ? T_JSX.has(item.t) : item.d ? !!D[item.d].jsx : true; }
 function itemAugmentable(item) { return !!item.t && T_DC.has(item.t); }
 
